@@ -916,7 +916,10 @@ fn airdrop_history(t: &mut Trace, rng: &mut Rng, n: usize, steps: usize) {
     let rcv: Vec<Address> = (0..nrcv).map(|_| <Address as soroban_sdk::testutils::Address>::generate(&e)).collect();
     let funder = <Address as soroban_sdk::testutils::Address>::generate(&e);
     let tok = e.register(Tok, ());
-    let data: Vec<(u32, usize, i128)> = (0..n).map(|i| (i as u32, rng.below(nrcv as u64) as usize, 1 + rng.below(1000) as i128)).collect();
+    // some leaves grant the amount 0 (a zero-amount entry is a leaf like any other: claimable once, with its proof only)
+    let data: Vec<(u32, usize, i128)> = (0..n)
+        .map(|i| (i as u32, rng.below(nrcv as u64) as usize, if rng.chance(15) { 0 } else { 1 + rng.below(1000) as i128 }))
+        .collect();
     let total: i128 = data.iter().map(|d| d.2).sum();
     // fund a little less than the total in some runs: late claims then fail in the transfer
     let funding = if rng.chance(40) { total - data[n - 1].2 / 2 - 1 } else { total };
@@ -970,8 +973,15 @@ fn airdrop_history(t: &mut Trace, rng: &mut Rng, n: usize, steps: usize) {
             }
             6 => {
                 let mut d = data[i];
-                d.2 += 1 + rng.below(5) as i128; // a larger amount than the leaf grants
-                claim(t, &d, &its[i].proof, "c:leaf");
+                if rng.chance(40) && d.2 != 0 {
+                    // the amount 0 instead of the leaf's amount, with the honest proof and with none
+                    d.2 = 0;
+                    claim(t, &d, &its[i].proof, "c:leaf");
+                    claim(t, &d, &[], if its[i].proof.is_empty() { "c:leaf" } else { "c:trunc" });
+                } else {
+                    d.2 += 1 + rng.below(5) as i128; // a larger amount than the leaf grants
+                    claim(t, &d, &its[i].proof, "c:leaf");
+                }
             }
             7 => {
                 let mut d = data[i];
